@@ -115,6 +115,13 @@ HELPERS = [
     "class Other(object):\n    def train(self, x):\n        return x\n\n    def run(self):\n        pass",
     "class Wrapper:\n    class Inner:\n        z = 1\n\n    def method(self):\n        return 1",
     "if __name__ == '__main__':\n    print(1)", "CONST = {'a': 1}", "def set_cli_args_helper(p):\n    return p",
+    "def clamp(value, lo, hi, /):\n    return max(lo, min(value, hi))",
+    "def mixed(a, b=2, /, c=3, *args, d, e=5, **kw):\n    return (a, b, c, args, d, e, kw)",
+    "async def fetch(url, *, timeout=3):\n    return url",
+    "import functools\n\n\n@functools.lru_cache(maxsize=None)\ndef cached(n):\n    return n",
+    "square = lambda v, /, p=2: v ** p",
+    "class Point:\n    __slots__ = ('x', 'y')\n\n    def __init__(self, x, y, /):\n        self.x, self.y = x, y",
+    "try:\n    import json\nexcept ImportError:\n    json = None",
 ]
 
 
@@ -129,7 +136,7 @@ def indent_block(src, n=4):
 
 
 def assemble_target(rng, kind, name, def_src, sur, position, trailing_newline, class_members=None, ending=None,
-                    module_doc=False, same_named_top=False):
+                    module_doc=False, same_named_top=False, same_named_after=False):
     """module text with `def_src` (None = absent) placed among `sur`.  For dotted names ('C.meth', 'Outer.K'):
     the definition lives inside the enclosing class together with `class_members`; with same_named_top a module-level
     statement of the same simple name is put before the enclosing class."""
@@ -140,6 +147,8 @@ def assemble_target(rng, kind, name, def_src, sur, position, trailing_newline, c
         if def_src is not None:
             idx = {"before": 0, "after": len(members)}.get(position, len(members) // 2)
             members.insert(idx, def_src)
+            if same_named_after:
+                members.insert(idx + 1, "%s = register(%s)" % (short, short))
         if not members:
             members = ["pass"]
         body = "\n\n".join(indent_block(mm) for mm in members)
@@ -151,6 +160,9 @@ def assemble_target(rng, kind, name, def_src, sur, position, trailing_newline, c
     elif def_src is not None:
         idx = {"before": 0, "after": len(chunks)}.get(position, len(chunks) // 2)
         chunks.insert(idx, def_src)
+        if same_named_after:
+            # a later statement of the same scope that rebinds the name (registration / decoration by hand)
+            chunks.insert(idx + 1, "%s = register(%s)" % (name, name) if kind == "class" else "%s = decorate(%s)" % (name, name))
     if module_doc:
         chunks.insert(0, '"""Module documentation.\n\nSecond paragraph of it.\n"""')
     text = "\n\n\n".join(chunks)
@@ -194,10 +206,13 @@ def gen_scenario(rng, via="api", runs=2, allow_known=True):
             pre = "stale-tail"
         elif rng.random() < 0.05:
             pre = "hardlink"
-        targets[k] = {"pre": pre, "stale_tmp": rng.random() < 0.08, "n_sur": rng.randint(0, 4), "position": rng.choice(["before", "between", "after"]),
+        targets[k] = {"pre": pre, "stale_tmp": rng.random() < 0.08, "same_named_after": rng.random() < 0.2, "n_sur": rng.randint(0, 4), "position": rng.choice(["before", "between", "after"]),
                       "trailing_newline": True, "ending": rng.choice(ENDINGS), "sur_seed": rng.randint(0, 10 ** 9),
                       "members": rng.randint(0, 2), "module_doc": rng.random() < 0.25,
                       "same_named_top": rng.random() < 0.5}
+    if targets and rng.random() < 0.08:
+        # the file holding the truth is ALSO named as the file of another kind: it must still never be modified
+        targets[rng.choice(sorted(targets))]["alias_truth"] = True
     body = rng.randint(0, len(BODIES) - 1) if (truth == "function" and rng.random() < 0.6) else None
     if body is not None and rng.random() < 0.6:
         # a second file of the truth's kind: it is a target and receives the carried body
@@ -224,6 +239,9 @@ def build_project(scn, root):
     for tk in scn["targets"]:
         paths[tk] = os.path.join(root, file_of(tk))
     truth, names = scn["truth"], scn["names"]
+    for tk, t in scn["targets"].items():
+        if t.get("alias_truth"):
+            paths[tk] = paths[truth]
     ftype = "self" if "." in names["function"] else "static"
     # truth file
     tname = names[truth].split(".")[-1]
@@ -237,6 +255,8 @@ def build_project(scn, root):
         name = names[k]
         short = name.split(".")[-1]
         pre = t["pre"]
+        if t.get("alias_truth"):
+            continue
         if t.get("stale_tmp"):
             # left behind by an earlier run that was killed between writing and renaming
             with open(paths[tk] + ".doctrans-tmp", "w") as f:
@@ -265,7 +285,8 @@ def build_project(scn, root):
                 dsrc = def_source(k, gold_ir if gold_ir is not None else ir, short, ftype if k == "function" else "static")
             text = assemble_target(srng, k, name, dsrc, sur, t["position"], t["trailing_newline"], members,
                                    ending=t.get("ending"), module_doc=t.get("module_doc", False),
-                                   same_named_top=t.get("same_named_top", False))
+                                   same_named_top=t.get("same_named_top", False),
+                                   same_named_after=t.get("same_named_after", False))
         with open(paths[tk], "w") as f:
             f.write(text)
     return {"paths": paths, "ir": ir, "stale": stale, "gold_ir": gold_ir, "ftype": ftype}
